@@ -44,9 +44,29 @@ RULE = (
     "in HSTRP.  Sub-check 'transport': HRNP control packets without data (one third boundary-directed: packet number chosen "
     "so that the ones-complement sum needs a second end-around carry) and HSTRP datagrams without payload.  Distinct = "
     "hash of the whole case; non-trivial = any flag set (reliable / confirmed / option) or a variable-length field non-empty "
-    "or >= 1 HSTRP option."
+    "or >= 1 HSTRP option.  Near-twins (round 7): about half of the Hypothesis cases and every 5th boundary case of the PDU "
+    "sub-checks carry 1..2 near-twins - the same opcode with ONE part changed: a variable-length field (status settings, "
+    "broadcast config, alias, raw payload, text, short data, option data) emptied / shortened / extended / replaced / other key "
+    "set / other order, option data None <-> empty <-> data, GPS time / date / speed / course absent <-> set, another HSTRP "
+    "option list, a flag, one integer - which are built, serialised and parsed (bare / HRNP / HSTRP in turn, reference-wrapped) "
+    "BEFORE the judged PDU and judged again after it.  Sub-check 'histories': 2..6 PDUs in one interpreter (a seeded base + "
+    "near-twins of it, of each other, PDUs of other opcodes of the protocol; every variable key of every opcode forced in "
+    "turn; Hypothesis: 1..3 independent draws of one opcode + 0..1 of a sibling opcode + 0..2 near-twins), each at a seeded "
+    "level (bare / HRNP DATA / HSTRP with options), an unrelated operation between two items (repr of everything kept, "
+    "refused truncated / cross-dispatched parse, default-constructed object, captured frame, RadioIP siblings in the other "
+    "endianness), then every kept object re-judged in another order and in the original order, the item parsed again, and "
+    "objects built with constructor defaults compared before / after the history."
 )
 ASSUMPTIONS = [
+    "histories / near-twins: decoding, building or refusing one PDU must not change what another object - kept alive from an "
+    "earlier parse, built earlier, or built later with constructor defaults - carries or serialises to; expected values of every "
+    "object come from the generated fields of ITS item and the reference assembly, never from another library call.  Clause ids "
+    "say which history produced a failure: '.._with_near_twins_parsed_first' / 'near_twin_..' / 'history_..' cases contain their "
+    "history and replay on their own; '.._in_a_process_with_state_left_behind' and 'history_starts_with_default_constructed_"
+    "objects_as_in_fresh_interpreter' mean an earlier case or prelude of the same process left state behind (that one fails its own "
+    "clause; such a stored case need not fail when replayed alone).  Hypothesis does not shrink histories (shrinking replays "
+    "candidates in the process the failure may have left dirty).  Items of histories and near-twins stay outside the open finding "
+    "C12-gps-speed-field-overflow (speed 0 or d.d knots) and below 700 octets per field",
     "stability clauses: every object is serialised twice (same octets), the same octets are parsed twice (same fields), "
     "serialising must not change the field dump of the PDU, and the same PDU object is nested in two different HRNP and two "
     "different HSTRP wrappers (second wrapper = reference assembly of the unchanged inner octets; inner object and first "
